@@ -218,3 +218,11 @@ Proof.
   - intros [x [Hx E]]. apply Nat.eqb_eq in E. subst. exact Hx.
   - intros H. exists i. split; [exact H | apply Nat.eqb_refl].
 Qed.
+
+(** whatever every timer operation preserves, a call function preserves (raising or not) *)
+Lemma run_body_inv : forall (S : Type) (exec : S -> bop -> S) (P : S -> Prop),
+  (forall s b, P s -> P (exec s b)) -> forall bs s, P s -> P (fst (run_body exec bs s)).
+Proof.
+  intros S exec P Hstep bs. induction bs as [|b r IH]; intros s H; cbn; [exact H|].
+  destruct b; try (apply IH; apply Hstep; exact H). exact H.
+Qed.
